@@ -881,37 +881,6 @@ dictable as records.  Each `abs_*` theorem says: the model's operation, seen thr
 list-of-records operation (they repackage `mask_rows`, `take_rows`, `slice_rows`, `relabel_rows`,
 `len_shape`, `iter_rows`). -/
 
-structure Recs where
-  cols : List String
-  rows : List (List Cell)
-  deriving Repr, DecidableEq
-
-def abs (t : Table) : Recs := ⟨t.cols, t.rows⟩
-
-namespace Recs
-
-/-- keep the flagged records -/
-def mask (r : Recs) (m : List Bool) : Recs := ⟨r.cols, ((r.rows.zip m).filter (·.2)).map (·.1)⟩
-
-/-- `[records[i] for i in is]` with python indices; IndexError if one is out of range -/
-def take (r : Recs) (is : List Int) : Except Err Recs :=
-  if is.all fun i => (pyIdx r.rows.length i).isSome then
-    .ok ⟨r.cols, is.filterMap fun i => (pyIdx r.rows.length i).map fun j => r.rows.getD j []⟩
-  else .error .index
-
-/-- `records[a:b:s]` -/
-def slice (r : Recs) (a b : Option Int) (s : Int) : Recs :=
-  ⟨r.cols, (sliceIdx r.rows.length a b s).map fun j => r.rows.getD j []⟩
-
-/-- rename the keys of every record -/
-def rename (r : Recs) (f : String → String) : Recs := ⟨r.cols.map f, r.rows⟩
-
-end Recs
-
-theorem abs_rows_getD (t : Table) (n : Nat) (hr : t.Rect n) (hne : t ≠ []) (j : Nat) (hj : j < n) :
-    t.rows.getD j [] = t.row j := by
-  simp [rows, nrows_of_rect hr hne, List.getD_eq_getElem?_getD, hj]
-
 theorem abs_mask (t : Table) (n : Nat) (hr : t.Rect n) (hne : t ≠ []) (m : List Bool) (hm : m.length = n) :
     ∃ t', t.getMask m = .ok t' ∧ abs t' = (abs t).mask m := by
   obtain ⟨t', h1, h2, h3⟩ := mask_rows t n hr hne m hm
@@ -979,30 +948,6 @@ theorem abs_relabel (t : Table) (r : Relabel) (hinj : (t.cols.map r.key).Nodup) 
     abs (t.relabel r) = (abs t).rename r.key := by
   obtain ⟨h1, h2, _⟩ := relabel_rows t r hinj
   simp [abs, Recs.rename, h1, h2]
-
-/-- the value of a record (cells aligned with `cols`) under key `k`, `None` if the key is absent -/
-def Recs.lookup (cols : List String) (row : List Cell) (k : String) : Cell :=
-  (((cols.zip row).find? (·.1 == k)).map (·.2)).getD .none
-
-/-- list-of-records concatenation: all keys, the records of each operand in order, absent keys `None` -/
-def Recs.concat (rs : List Recs) : Recs :=
-  let keys := dedupKeys (rs.flatMap Recs.cols)
-  ⟨keys, rs.flatMap fun r => r.rows.map fun row => keys.map fun k => Recs.lookup r.cols row k⟩
-
-theorem lookup_row (t : Table) (i : Nat) (k : String) :
-    Recs.lookup t.cols (t.row i) k = (t.getCol k).getD i .none := by
-  have hrow : t.cols.zip (t.row i) = t.map fun c => (c.1, c.2.getD i .none) := by
-    simp [cols, row, List.zip_map']
-  unfold Recs.lookup getCol col?
-  rw [hrow, List.find?_map]
-  have : ((fun x : String × Cell => x.1 == k) ∘ fun c : String × List Cell => (c.1, c.2.getD i Cell.none))
-      = fun c => c.1 == k := by funext c; rfl
-  rw [this]
-  cases t.find? (fun c => c.1 == k) with
-  | none =>
-    simp only [Option.map_none, Option.getD_none, List.getD_eq_getElem?_getD, List.getElem?_replicate]
-    split <;> rfl
-  | some e => simp
 
 /-- **concatenation refines list-of-records concatenation** -/
 theorem abs_concat (ts : List Table) (hr : ∀ t ∈ ts, ∃ n, t.Rect n) :
